@@ -9,5 +9,16 @@ sed "s#=> /repo#=> $REPO#" harness/go.mod > .build/harness.mod
 cp "$REPO/go.sum" .build/harness.sum
 (cd harness && go build -modfile ../.build/harness.mod -tags verif -o ../.build/gvh .)
 ./.build/gvh extract lean/Gedcom/Generated
-(cd lean && lake build)
+MODS=$(python3 - <<'PY'
+import json, os
+mods = []
+for f in sorted(os.listdir("props")):
+    if f.endswith(".json"):
+        for m in json.load(open(os.path.join("props", f)))["lean_modules"]:
+            if m not in mods:
+                mods.append(m)
+print(" ".join(mods))
+PY
+)
+(cd lean && lake build driver $MODS)
 echo setup done
